@@ -87,7 +87,7 @@ Value gen_value(FDP& f, const GenCfg& c, const std::string& sig, size_t& pos) {
   if (t == 's') { pos++; return Value::str('s', gen_utf8(f, c.max_str)); }
   if (t == 'o') { pos++; return Value::str('o', gen_path(f)); }
   if (t == 'g') { pos++; GenCfg c2 = c; c2.max_depth = 3; return Value::str('g', gen_sig(f, c2, 3)); }
-  if (t == 'v') { pos++; GenCfg c2 = c; if (c2.max_depth > 3) c2.max_depth = 3; std::string s = gen_sct(f, c2, 1); size_t p = 0; return Value::variant(gen_value(f, c2, s, p)); }
+  if (t == 'v') { pos++; GenCfg c2 = c; c2.max_depth = c.max_depth - 1; if (c2.max_depth > 3) c2.max_depth = 3; if (c2.max_depth < 1) c2.max_depth = 1; std::string s = c.max_depth <= 1 ? std::string(1, "ysu"[pick(f, 3)]) : gen_sct(f, c2, 1); size_t p = 0; return Value::variant(gen_value(f, c2, s, p)); }
   if (t == 'a') {
     size_t el = sct_len(sig, pos + 1);
     Value v = Value::array(sig.substr(pos + 1, el));
